@@ -1290,6 +1290,59 @@ def _coverage_method():
             ma, ms, mc = scan(fm)
             ua, us, _ = scan(fu)
             n = len(fields)
+
+            def limits(fn):
+                """integer constants >= 1024 that a codec function compares against or passes to a reader: its length limits"""
+                out = set()
+                for b in fn["blocks"]:
+                    for ins in b["instrs"]:
+                        if ins["op"] in ("BinOp", "Call", "If"):
+                            for a in ins["args"]:
+                                if a.get("k") == "const" and a.get("n") == "int":
+                                    try:
+                                        v = int(a["v"])
+                                    except (TypeError, ValueError):
+                                        continue
+                                    if v >= 1024:
+                                        out.add(v)
+                return out
+            lm, lu = limits(fm), limits(fu)
+            o.instances += 1
+            if lm == lu:
+                o.proved += 1
+            else:
+                o.failed.append({"reason": "length limits differ between the codec halves of %s: MarshalCBOR enforces %s, UnmarshalCBOR accepts %s "
+                                           "(a record the encoder writes must be one the decoder reads back)" % (tn, sorted(lm), sorted(lu)), "field": "<limits>"})
+            if not any(f in ms for f in fields):
+                # tuple (array) encoding: no keys; every field is written and read back in order, and the decoder checks the arity
+                cmp_consts = set()
+                for b in fu["blocks"]:
+                    for ins in b["instrs"]:
+                        if ins["op"] == "BinOp":
+                            for a in ins["args"]:
+                                if a.get("k") == "const" and a.get("n") == "int":
+                                    try:
+                                        cmp_consts.add(int(a["v"]))
+                                    except (TypeError, ValueError):
+                                        pass
+                for f in fields:
+                    o.instances += 1
+                    problems = []
+                    if f not in ma:
+                        problems.append("MarshalCBOR never reads field %s" % f)
+                    if f not in ua:
+                        problems.append("UnmarshalCBOR never stores into field %s" % f)
+                    if problems:
+                        o.failed.append({"reason": "; ".join(problems), "field": f})
+                    else:
+                        o.proved += 1
+                o.instances += 1
+                if n in cmp_consts:
+                    o.proved += 1
+                else:
+                    o.failed.append({"reason": "UnmarshalCBOR of %s does not check for %d fields" % (tn, n)})
+                o.solver = "structural (SSA scan)"
+                continue
             header_ok = (n < 24 and (0xa0 + n) in mc) or (24 <= n < 256 and any(mc[i] == 184 and mc[i + 1] == n for i in range(len(mc) - 1)))
             for f in fields:
                 o.instances += 1
